@@ -372,7 +372,16 @@ class FunctionGuards:
             if tgt and (cn in MAKE_CONTIG or (cn in ORDERED_CTORS and any(k.arg == "order" for k in a.value.keywords))):
                 direct.setdefault(tgt, set()).add("contig")
             if tgt and cn in ALLOC:
-                direct.setdefault(tgt, set()).update({"contig", "shape"})
+                direct.setdefault(tgt, set()).update({"contig", "shape", "dtype"})
+            has_dtype = any(k.arg == "dtype" for k in a.value.keywords) or (
+                cn in MAKE_CONTIG | ORDERED_CTORS and len(a.value.args) >= 2)
+            if tgt and cn in MAKE_CONTIG | ORDERED_CTORS and has_dtype:
+                direct.setdefault(tgt, set()).add("dtype")  # converted to a definite element type
+            if tgt and isinstance(a.value.func, ast.Attribute) and a.value.func.attr == "astype" and a.value.args:
+                direct.setdefault(tgt, set()).add("dtype")
+            if tgt and isinstance(a.value.func, ast.Attribute) and a.value.func.attr == "copy" \
+                    and not any(k.arg == "order" for k in a.value.keywords) and not a.value.args:
+                direct.setdefault(tgt, set()).add("contig")  # ndarray.copy() is C-ordered by default
             atoms += self._call_atoms(a.value)
         elif nd.kind == "stmt" and isinstance(a, ast.Expr) and isinstance(a.value, ast.Call):
             atoms += self._call_atoms(a.value)
@@ -495,3 +504,53 @@ def caller_context(module_ast, helper, resolver, cache=None):
             common_atoms = {k: v for k, v in common_atoms.items() if k in t_atoms}
             common_direct = {k: v & t_direct.get(k, set()) for k, v in common_direct.items() if k in t_direct}
     return list(common_atoms.values()), {k: v for k, v in (common_direct or {}).items() if v}
+
+
+# ----------------------------------------------------------------------------
+# buffer layout: wrapper parameters handed to C must be layout- and dtype-normalised on every path
+# ----------------------------------------------------------------------------
+def buffer_layout(tree, sites, c_kind_of=None):
+    """For every ctypes call site (objects with .rel .func .node .pairs .callees .line as produced by sa.ffi) and
+    every argument `<p>.ctypes.data_as(..)` / `<p>.ctypes.data` whose array `<p>` is a *parameter* of the Python
+    function making the call: is contiguity and is the element type guaranteed on every path to the call
+    (np.ascontiguousarray / require / asarray(order=) / .copy() / fresh allocation; dtype= conversion / astype /
+    fresh allocation; or an assert / raising test on .flags.c_contiguous and .dtype -- in the function, a helper it
+    calls, or every caller of a private helper)?  -> list of dicts (one per site argument)"""
+    out = []
+    resolvers, caches = {}, {}
+    for s_ in sites:
+        fn = pf.enclosing_func(s_.node)
+        if fn is None:
+            continue
+        params = [a.arg for a in fn.args.posonlyargs + fn.args.args + fn.args.kwonlyargs]
+        params = [p_ for p_ in params if p_ not in ("self", "cls")]
+        subjects = {}
+        for c, al in s_.pairs:
+            if c is None or al is None:
+                continue
+            for i, it in enumerate(al):
+                src = it[1]
+                if ".ctypes.data" in src:
+                    subj = src.split(".ctypes.data")[0]
+                    if subj in params:
+                        subjects.setdefault(subj, i)
+        if not subjects:
+            continue
+        mod_ast = tree.py(s_.rel)
+        if s_.rel not in resolvers:
+            resolvers[s_.rel] = Resolver(mod_ast)
+            caches[s_.rel] = {}
+        e_atoms, e_direct = caller_context(mod_ast, fn, resolvers[s_.rel], caches[s_.rel])
+        fg = FunctionGuards(fn, resolvers[s_.rel], entry_atoms=e_atoms, entry_direct=e_direct)
+        cn = fg.cfg.stmt_of_expr(s_.node)
+        if cn is None:
+            continue
+        nk = fg.node_kinds()
+        for subj, argi in sorted(subjects.items()):
+            have = set()
+            for kind in ("contig", "dtype"):
+                ids = {nid for nid, d in nk.items() if kind in d.get(subj, ())}
+                if ids and fg.guaranteed(ids, [cn.id]):
+                    have.add(kind)
+            out.append({"site": s_, "subject": subj, "arg": argi, "have": have, "missing": {"contig", "dtype"} - have})
+    return out
